@@ -1,7 +1,6 @@
 package stdlib
 
 import (
-	"math"
 	"rare/pkg/color"
 	. "rare/pkg/expressions" //lint:ignore ST1001 Legacy
 	"rare/pkg/multiterm/termscaler"
@@ -46,7 +45,7 @@ func kfRepeat(args []KeyBuilderStage) (KeyBuilderStage, error) {
 		if err != nil {
 			return ErrorNum
 		}
-		if count < 0 || (len(char) > 0 && count > math.MaxInt/len(char)) {
+		if count < 0 || (len(char) > 0 && count > maxOutputLen/len(char)) {
 			return ErrorValue
 		}
 		return strings.Repeat(char, count)
